@@ -11,7 +11,7 @@ from typing import Optional
 from . import VERIF
 from .front import AnalysisError, Repo
 
-EVIDENCE_DIR = os.path.join(VERIF, "evidence")
+EVIDENCE_DIR = os.environ.get("TSA_EVIDENCE_DIR") or os.path.join(VERIF, "evidence")  # override: dev tools only
 KNOWN_FINDINGS = os.path.join(VERIF, "known_findings.json")
 
 TRUSTED_BASE = [
